@@ -12,7 +12,10 @@ CFG = {
             "per block; siblings with EQUAL offsets = deliberate exact TD ties, also in chains), a random parent-closed arrival order "
             "(possibly of a parent-closed subset) split into InsertChain batches, re-deliveries, whole-ancestry batches, non-contiguous "
             "batches, Stop+reopen of a pruning node (reaches ErrPrunedAncestor: written without state while lighter, winners re-imported "
-            "when the branch overtakes); archive / pruning / header-first (InsertHeaderChain). After EVERY call: TD recurrence for every "
+            "when the branch overtakes); archive / pruning / header-first (InsertHeaderChain on a second chain instance); 30 MIXED histories per run (one chain fed "
+            "through both paths: blocks then lighter / equal / heavier header forks, headers first, interleaved) and 12 two-writer schedules "
+            "(InsertChain of X vs the miner-style direct WriteBlockWithState of a lighter sibling M, first writer held inside its critical "
+            "section by a gate database, both orders and free running). After EVERY call: TD recurrence for every "
             "stored block, head TD >= TD of every block the chain has fully validated so far (exact ties either way), head validated, "
             "head TD monotone — judged directly on the real chain — and the dump (head, td table, stored / state sets) is compared "
             "with the Lean model replaying the same operations under every coin resolution. Non-trivial = every history.",
@@ -22,6 +25,13 @@ CFG = {
             "HeaderChain.WriteHeader / InsertHeaderChain": "corr (Model.Chain.writeHeader / hImportChain)",
             "BlockChain.Stop + NewBlockChain (state availability)": "corr (Model.Chain.reopen)"},
     "assumptions": ["C02 quantifies over import histories: rewinds (SetHead) are exercised under C03 only",
+                    "fork_choice_atomic: the models treat WriteBlockWithState as one atomic step (the head's total difficulty it "
+                    "compares with is read under bc.mu); concurrent callers (InsertChain vs the miner's direct WriteBlockWithState) are "
+                    "not modelled as interleavings — the harness runs them under a controlled schedule (gate database) and judges the "
+                    "result; Props/C02 fork_choice_not_atomic_witness shows the failure the assumption excludes",
+                    "mixed histories (InsertChain and InsertHeaderChain on one chain) are modelled at total-difficulty level "
+                    "(Model.ChainMixed): the number index is not modelled there and the head-header position after a block import is an "
+                    "input resolved like the coin",
                     "Go runtime, math/big and the cryptographic primitives are modelled, not verified (DESIGN.md 2.5)",
                     "only valid blocks are imported (block validity is property C01); a transaction occurs at most once along one "
                     "chain (guaranteed by nonces; checked on every generated tree)",
@@ -36,7 +46,8 @@ META = {
     "technique": "Lean 4 proof (fork-choice invariants of the chain-database model for all trees, orders, batchings and coin "
                  "resolutions, by induction over import histories) tied to core/ by differential correspondence on random trees",
     "text": "Theorems td_recurrence, head_is_max, head_td_monotone, imports_never_fail (and header_td_recurrence, header_head_is_max, "
-            "header_head_td_monotone) show that in the Lean model of WriteBlockWithState / insertChain2 (incl. the pruned-ancestor "
+            "header_head_td_monotone; mixed_td_recurrence, mixed_head_is_max, mixed_head_td_monotone, mixed_header_import_monotone for one "
+            "chain fed through both import paths) show that in the Lean model of WriteBlockWithState / insertChain2 (incl. the pruned-ancestor "
             "side-chain branch and restarts) / HeaderChain.WriteHeader every td record is the parent's plus the block's difficulty, the "
             "head is a fully validated block at least as heavy as every fully validated block whatever the coin did, and its total "
             "difficulty never decreases; every run re-checks them and imports hundreds of random trees (shorter-heavier branches, exact "
